@@ -1573,6 +1573,12 @@ func ruleBatchNotOverwritten(c *Ctx, rule string) {
 								isAppend = true
 							}
 						}
+						// B = helper(B, …): the batch is handed to a helper that returns it extended
+						for _, a := range call.Args {
+							if aid, ok := ast.Unparen(a).(*ast.Ident); ok && f.ObjOf(aid) == b {
+								isAppend = true
+							}
+						}
 					}
 				}
 				if isAppend {
